@@ -707,7 +707,7 @@ def rule_steps(rep: Report, rid_order="C07.order", rid_guard="C07.guard", rid_fr
                 else:
                     v, g = arg
                     probs = check_argument(I, c.tree, v, step, H, V)
-                    if not g or [x for x in g] != [(("cmp", "Is", v, NONE), False)]:
+                    if not g or [x for x in g] not in ([(("cmp", "Is", v, NONE), False)], [nf.norm_guard(nf.isnone(v), False)]):
                         probs.append(f"'argument' is not set exactly when an argument exists (guard {[(fmt(a, I), p) for a, p in (g or [])]})")
                     rep.ob(rid, f"{tag}: {which} pickle step argument is the step's table/doc string copied cell by cell"
                            + (", interpolated" if outline_own else ", not substituted"), not probs,
